@@ -1,8 +1,8 @@
 // C02 (and C03 clause A) for structures BUILT THROUGH THE PUBLIC API, under generated histories of
 // Size / Info / Encode / EncodeSW calls.
 //
-// A case is a recipe (plain JSON data): which constructors and Add... calls to make with which arguments, whether
-// trun optimisation is switched on, and a history of 1..8 operations. build() turns the recipe into a library
+// A case is a recipe (plain JSON data, package internal/apigen): which constructors and Add... calls to make with which
+// arguments, whether trun optimisation is switched on, and a history of 1..8 operations. apigen.Build turns the recipe into a library
 // structure (init segment, fragment, media segment, fragmented or progressive file, or a single box); the oracle
 // runs the history on it and checks after every step what the property text says: bytes written == Size() (after,
 // and before unless this is the first encode under OptimizeTrun), EncodeSW into exactly Size() bytes neither
@@ -17,17 +17,15 @@ import (
 	"encoding/json"
 	"errors"
 	"fmt"
-	"io"
 	"os"
 	"regexp"
 	"sort"
 	"strings"
 	"testing"
 
-	"github.com/Eyevinn/mp4ff/bits"
-	"github.com/Eyevinn/mp4ff/mp4"
 	"pgregory.net/rapid"
 
+	"verif/internal/apigen"
 	"verif/internal/boxprop"
 	"verif/internal/boxwalk"
 	"verif/internal/harness"
@@ -37,867 +35,20 @@ func init() {
 	harness.RegisterReplay("api", harness.Replayer(checkAPI))
 	// development aid: VERIF_C02_NOAVOID=all or a comma-separated list of switch names
 	if v := os.Getenv("VERIF_C02_NOAVOID"); v == "all" {
-		avoidKnown = map[string]bool{}
+		apigen.AvoidKnown = map[string]bool{}
 	} else if v != "" {
 		for _, name := range strings.Split(v, ",") {
-			if _, ok := avoidKnown[name]; !ok {
+			if _, ok := apigen.AvoidKnown[name]; !ok {
 				fmt.Fprintf(os.Stderr, "VERIF_C02_NOAVOID: unknown switch %q\n", name)
 				os.Exit(2)
 			}
-			delete(avoidKnown, name)
+			delete(apigen.AvoidKnown, name)
 		}
 	}
 }
-
-// avoidKnown: one switch per library behaviour that contradicts C02/C03 on the unchanged tree for API-built
-// structures. While a switch is on, the generator steers away from the triggering shape or the oracle skips exactly
-// the relation concerned; each such event is counted with harness.Rec.Exclude(name). A case carrying
-// "noAvoid": true ignores the switches (reproducers).
-var avoidKnown = map[string]bool{
-	// File.Size() sums File.Children, but a media segment handed to File.AddMediaSegment is not in Children, while
-	// File.Encode/EncodeSW (segment mode) write it: Size() is smaller than the bytes written and EncodeSW into
-	// Size() bytes overflows. Oracle: for such files the sum of the Size() of the boxes that segment-mode encoding
-	// writes (init + sidx + segments + mfra) stands in for File.Size().
-	"file-size-ignores-addmediasegment": false, // repaired in /repo (bc17f9b)
-	// In segment mode File.Encode writes only init segment, top-level sidx boxes, media segments and mfra; every other
-	// box that File.AddChild accepted (free/skip/unknown boxes between or after the segments or after the moov box)
-	// is counted by File.Size() but not written (documented for EncModeSegment, yet Size() != bytes written).
-	// Oracle: same replacement as above.
-	"file-size-counts-boxes-segment-mode-omits": false, // repaired in /repo (bc17f9b)
-}
-
-// ---------------------------------------------------------------------------------------------
-// the case (recipe)
-
-// boxR is the recipe of one box: builder name + argument bags (meaning per builder, see boxKinds) + children.
-type boxR struct {
-	T string             `json:"t"`
-	N []int64            `json:"n,omitempty"`
-	S []string           `json:"s,omitempty"`
-	B []harness.HexBytes `json:"b,omitempty"`
-	K []boxR             `json:"k,omitempty"`
-}
-
-func (r *boxR) n(i int) int64 {
-	if i < len(r.N) {
-		return r.N[i]
-	}
-	return 0
-}
-func (r *boxR) s(i int) string {
-	if i < len(r.S) {
-		return r.S[i]
-	}
-	return ""
-}
-func (r *boxR) b(i int) []byte {
-	if i < len(r.B) {
-		return append([]byte{}, r.B[i]...)
-	}
-	return nil
-}
-
-type dac3R struct{ FSCod, BSID, BSMod, ACMod, LFEOn, BitRateCode byte }
-type ec3SubR struct {
-	FSCod, BSID, ASVC, BSMod, ACMod, LFEOn, NumDepSub byte
-	ChanLoc                                           uint16
-}
-type dec3R struct {
-	DataRate uint16    `json:"dataRate"`
-	Subs     []ec3SubR `json:"subs"`
-}
-
-// trackR: one AddEmptyTrack call + the Set*Descriptor call named by Codec + optional decorations.
-type trackR struct {
-	Timescale uint32 `json:"timescale"`
-	Media     string `json:"media"`
-	Lang      string `json:"lang"`
-	Codec     string `json:"codec"` // avc | hevc | aac | ac3 | ec3 | wvtt | stpp | none
-	Entry     string `json:"entry,omitempty"`
-	IncludePS bool   `json:"includePS,omitempty"`
-	PS        *psSet `json:"ps,omitempty"`
-	AACObj    byte   `json:"aacObj,omitempty"`
-	AACFreq   int    `json:"aacFreq,omitempty"`
-	Dac3      *dac3R `json:"dac3,omitempty"`
-	Dec3      *dec3R `json:"dec3,omitempty"`
-	Vtt       string `json:"vtt,omitempty"`
-	StppNS    string `json:"stppNS,omitempty"`
-	StppSch   string `json:"stppSch,omitempty"`
-	StppAux   string `json:"stppAux,omitempty"`
-	// decorations
-	EntryKids []boxR `json:"entryKids,omitempty"` // AddChild on the sample entry (btrt, pasp, colr, clap, ...)
-	Edts      *boxR  `json:"edts,omitempty"`      // trak.AddChild(edts with elst)
-	TrakKids  []boxR `json:"trakKids,omitempty"`  // trak.AddChild (udta, ...)
-	StblKids  []boxR `json:"stblKids,omitempty"`  // stbl.AddChild (sgpd, sbgp, ...)
-	V1        int    `json:"v1,omitempty"`        // bit 0: tkhd.Version=1, bit 1: mdhd.Version=1
-	// fields of the trex box
-	TrexDur, TrexSize, TrexFlags uint32
-}
-
-type protectR struct {
-	Scheme string `json:"scheme"` // cenc | cbcs
-	IVLen  int    `json:"ivLen"`  // 8 | 16
-	Pssh   []boxR `json:"pssh,omitempty"`
-}
-
-type initR struct {
-	Tracks   []trackR  `json:"tracks"`
-	Brands   []string  `json:"brands,omitempty"`   // init.Ftyp.AddCompatibleBrands
-	MoovKids []boxR    `json:"moovKids,omitempty"` // moov.AddChild (pssh, udta, meta, free)
-	MvexKids []boxR    `json:"mvexKids,omitempty"` // mvex.AddChild (mehd, leva)
-	TopKids  []boxR    `json:"topKids,omitempty"`  // init.AddChild (free, ...)
-	MvhdV1   bool      `json:"mvhdV1,omitempty"`
-	Protect  *protectR `json:"protect,omitempty"`
-	Tweak    bool      `json:"tweak,omitempty"`  // InitSegment.TweakSingleTrakLive (drops the mehd box)
-	Manual   []boxR    `json:"manual,omitempty"` // instead of all the above: NewMP4Init + AddChild of these boxes
-}
-
-type sampleR struct {
-	Track int    `json:"track"` // index into fragR.Tracks
-	Size  int    `json:"size"`
-	Seed  byte   `json:"seed"`
-	Dur   uint32 `json:"dur"`
-	Flags uint32 `json:"flags"`
-	Cto   int32  `json:"cto"`
-	Time  uint64 `json:"time"`           // decode time handed to the Add... call
-	Nalu  string `json:"nalu,omitempty"` // "avc" | "hevc": the data is one NAL unit with a 4-byte length field
-}
-
-// fragR: one fragment.
-//
-//	Ctor: "single" CreateFragment | "multi" CreateMultiTrackFragment | "manual" NewFragment + AddChild of
-//	      prft/emsg/moof(mfhd, traf(tfhd, tfdt))/mdat built from the box constructors
-//	Mode: full (AddFullSample; single) | fullTrack (AddFullSampleToTrack) | meta (AddSample + Mdat.SetData; single)
-//	      | metaMany (AddSamples + Mdat.SetData; single) | metaTrack (AddSampleToTrack + Mdat.SetData)
-//	      | interval (AddSampleInterval, data as mdat parts; single)
-type fragR struct {
-	Ctor      string    `json:"ctor"`
-	Seq       uint32    `json:"seq"`
-	Tracks    []uint32  `json:"tracks"` // track ids
-	Mode      string    `json:"mode"`
-	Samples   []sampleR `json:"samples,omitempty"`
-	Pre       []boxR    `json:"pre,omitempty"`       // manual: AddChild before the moof (prft, emsg)
-	Emsgs     []boxR    `json:"emsgs,omitempty"`     // Fragment.AddEmsg
-	Post      []boxR    `json:"post,omitempty"`      // Fragment.AddChild after the mdat
-	MoofKids  []boxR    `json:"moofKids,omitempty"`  // moof.AddChild (pssh)
-	TrafKids  [][]boxR  `json:"trafKids,omitempty"`  // per traf: AddChild (sbgp, sgpd, subs, saiz, saio, senc, tfrf...)
-	Tfhd      [][]int64 `json:"tfhd,omitempty"`      // per traf: flags to OR, baseDataOffset, sampleDescriptionIndex, defDur, defSize, defFlags
-	Encrypt   bool      `json:"encrypt,omitempty"`   // mp4.EncryptFragment with the protection data of the init recipe
-	LargeMdat bool      `json:"largeMdat,omitempty"` // Mdat.LargeSize = true
-}
-
-type segR struct {
-	Styp    *boxR   `json:"styp,omitempty"` // nil: NewMediaSegmentWithoutStyp; T "styp-default": NewMediaSegment; else NewMediaSegmentWithStyp
-	Sidxs   []boxR  `json:"sidxs,omitempty"`
-	SidxVia string  `json:"sidxVia,omitempty"` // "" AddSidx | "fields" Sidx and Sidxs assigned | "sidx-only" only the Sidx field assigned
-	Frags   []fragR `json:"frags"`
-}
-
-// fileR: fragmented file. Via: "addchild" (every box through File.AddChild, the way the decoder and
-// examples/resegmenter do) | "addsegment" (ftyp+moov through AddChild, segments through AddMediaSegment).
-type fileR struct {
-	Via     string `json:"via"`
-	BoxTree bool   `json:"boxTree,omitempty"` // FragEncMode = EncModeBoxTree
-	Sidxs   []boxR `json:"sidxs,omitempty"`   // top-level sidx boxes before the first segment
-	Mfra    *boxR  `json:"mfra,omitempty"`
-	Tail    []boxR `json:"tail,omitempty"` // boxes added after the last segment (free, skip, unknown)
-	// UpdateSidx: 0 no call, 1 File.UpdateSidx(true, false), 2 File.UpdateSidx(true, true) after everything was added
-	UpdateSidx int `json:"updateSidx,omitempty"`
-}
-
-// progR: progressive file = ftyp + moov (from the box constructors) + mdat, order and extras free.
-type progR struct {
-	Boxes []boxR `json:"boxes"`
-}
-
-type apiCase struct {
-	Kind    string   `json:"kind"` // init | fragment | segment | file-frag | file-prog | box
-	Init    *initR   `json:"init,omitempty"`
-	Segs    []segR   `json:"segs,omitempty"`
-	File    *fileR   `json:"file,omitempty"`
-	Prog    *progR   `json:"prog,omitempty"`
-	Box     *boxR    `json:"box,omitempty"`
-	Decrypt bool     `json:"decrypt,omitempty"` // fragment/segment with a protected init: DecryptInit + DecryptFragment on every encrypted fragment
-	Opt     bool     `json:"opt,omitempty"`     // EncOptimize = OptimizeTrun, set once before the history
-	Hist    []string `json:"hist"`              // size | info | info-all | info-trun | enc | sw | swbig
-	NoAvoid bool     `json:"noAvoid,omitempty"`
-}
-
-type stats struct {
-	skipped  map[string]int64
-	classes  map[string]bool
-	nBoxes   int
-	rejected string
-}
-
-func (st *stats) class(name string) {
-	if st.classes == nil {
-		st.classes = map[string]bool{}
-	}
-	st.classes[name] = true
-}
-
-// avoid reports whether the relation guarded by the named known-defect switch is to be skipped.
-func (c *apiCase) avoid(st *stats, name string) bool {
-	if c.NoAvoid || !avoidKnown[name] {
-		return false
-	}
-	if st.skipped == nil {
-		st.skipped = map[string]int64{}
-	}
-	st.skipped[name]++
-	return true
-}
-
-func avoidGen(name string, hit bool) bool {
-	if hit && avoidKnown[name] {
-		harness.Rec.Exclude(name)
-		return true
-	}
-	return false
-}
-
-// ---------------------------------------------------------------------------------------------
-// the structure under test
-
-type target struct {
-	what   string
-	size   func() uint64
-	enc    func(io.Writer) error
-	encSW  func(bits.SliceWriter) error
-	info   func(io.Writer, string) error
-	top    func() []mp4.Box // the boxes an encoding writes, in order (read after the history)
-	setOpt func()
-}
-
-type rejected struct{ err error }
-
-func (r rejected) Error() string { return r.err.Error() }
-
-func reject(format string, a ...interface{}) error { return rejected{fmt.Errorf(format, a...)} }
 
 func badCase(format string, a ...interface{}) *harness.Fail {
 	return harness.Failf("harness|c02api|bad-case", format, a...)
-}
-
-func sampleBytes(s sampleR) []byte {
-	d := make([]byte, s.Size)
-	for i := range d {
-		d[i] = s.Seed + byte(i*31) ^ byte(i>>8)
-	}
-	if s.Nalu != "" && s.Size >= 6 {
-		// one NAL unit with a 4-byte length field; non-VCL (SEI) for seeds below 128, else a slice type
-		d[0], d[1], d[2], d[3] = 0, 0, 0, byte(s.Size-4)
-		switch {
-		case s.Nalu == "avc" && s.Seed < 128:
-			d[4] = 6
-		case s.Nalu == "avc":
-			d[4] = 1 + 4*(s.Seed&1)
-		case s.Seed < 128:
-			d[4], d[5] = 39<<1, 1
-		default:
-			d[4], d[5] = (1+18*(s.Seed&1))<<1, 1
-		}
-	}
-	return d
-}
-
-var fixedKey = []byte{0, 1, 2, 3, 4, 5, 6, 7, 8, 9, 10, 11, 12, 13, 14, 15}
-var fixedIV = []byte{0xf0, 0xf1, 0xf2, 0xf3, 0xf4, 0xf5, 0xf6, 0xf7, 0xf8, 0xf9, 0xfa, 0xfb, 0xfc, 0xfd, 0xfe, 0xff}
-
-const fixedKID = "00112233445566778899aabbccddeeff"
-
-func hexes(h []harness.HexBytes) [][]byte {
-	var out [][]byte
-	for _, b := range h {
-		out = append(out, append([]byte{}, b...))
-	}
-	return out
-}
-
-// addKids builds the recipes and hands each box to add.
-func addKids(kids []boxR, add func(mp4.Box) error) error {
-	for i := range kids {
-		b, err := buildBox(&kids[i])
-		if err != nil {
-			return err
-		}
-		if err := add(b); err != nil {
-			return reject("AddChild(%s): %v", kids[i].T, err)
-		}
-	}
-	return nil
-}
-
-func noErr(f func(mp4.Box)) func(mp4.Box) error {
-	return func(b mp4.Box) error { f(b); return nil }
-}
-
-func buildInit(r *initR) (*mp4.InitSegment, *mp4.InitProtectData, error) {
-	if len(r.Manual) > 0 {
-		init := mp4.NewMP4Init()
-		return init, nil, addKids(r.Manual, noErr(init.AddChild))
-	}
-	init := mp4.CreateEmptyInit()
-	if len(r.Brands) > 0 {
-		init.Ftyp.AddCompatibleBrands(r.Brands)
-	}
-	if r.MvhdV1 {
-		init.Moov.Mvhd.Version = 1
-	}
-	for i := range r.Tracks {
-		tr := &r.Tracks[i]
-		init.AddEmptyTrack(tr.Timescale, tr.Media, tr.Lang)
-		trak := init.Moov.Traks[i]
-		var err error
-		switch tr.Codec {
-		case "avc":
-			err = trak.SetAVCDescriptor(tr.Entry, hexes(tr.PS.SPS), hexes(tr.PS.PPS), tr.IncludePS)
-		case "hevc":
-			err = trak.SetHEVCDescriptor(tr.Entry, hexes(tr.PS.VPS), hexes(tr.PS.SPS), hexes(tr.PS.PPS), hexes(tr.PS.SEI), tr.IncludePS)
-		case "aac":
-			err = trak.SetAACDescriptor(tr.AACObj, tr.AACFreq)
-		case "ac3":
-			d := tr.Dac3
-			err = trak.SetAC3Descriptor(&mp4.Dac3Box{FSCod: d.FSCod, BSID: d.BSID, BSMod: d.BSMod, ACMod: d.ACMod, LFEOn: d.LFEOn, BitRateCode: d.BitRateCode})
-		case "ec3":
-			b := &mp4.Dec3Box{DataRate: tr.Dec3.DataRate, NumIndSub: uint16(len(tr.Dec3.Subs) - 1)}
-			for _, s := range tr.Dec3.Subs {
-				b.EC3Subs = append(b.EC3Subs, mp4.EC3Sub{FSCod: s.FSCod, BSID: s.BSID, ASVC: s.ASVC, BSMod: s.BSMod, ACMod: s.ACMod, LFEOn: s.LFEOn, NumDepSub: s.NumDepSub, ChanLoc: s.ChanLoc})
-			}
-			err = trak.SetEC3Descriptor(b)
-		case "wvtt":
-			err = trak.SetWvttDescriptor(tr.Vtt)
-		case "stpp":
-			err = trak.SetStppDescriptor(tr.StppNS, tr.StppSch, tr.StppAux)
-		}
-		if err != nil {
-			return nil, nil, reject("Set%sDescriptor: %v", tr.Codec, err)
-		}
-		if tr.V1&1 != 0 {
-			trak.Tkhd.Version = 1
-		}
-		if tr.V1&2 != 0 {
-			trak.Mdia.Mdhd.Version = 1
-		}
-		trex := init.Moov.Mvex.Trexs[i]
-		trex.DefaultSampleDuration, trex.DefaultSampleSize, trex.DefaultSampleFlags = tr.TrexDur, tr.TrexSize, tr.TrexFlags
-		stsd := trak.Mdia.Minf.Stbl.Stsd
-		if len(tr.EntryKids) > 0 && len(stsd.Children) == 1 {
-			switch se := stsd.Children[0].(type) {
-			case *mp4.VisualSampleEntryBox:
-				err = addKids(tr.EntryKids, noErr(se.AddChild))
-			case *mp4.AudioSampleEntryBox:
-				err = addKids(tr.EntryKids, noErr(se.AddChild))
-			case *mp4.StppBox:
-				err = addKids(tr.EntryKids, noErr(se.AddChild))
-			case *mp4.WvttBox:
-				err = addKids(tr.EntryKids, noErr(se.AddChild))
-			}
-			if err != nil {
-				return nil, nil, err
-			}
-		}
-		if tr.Edts != nil {
-			if err := addKids([]boxR{*tr.Edts}, noErr(trak.AddChild)); err != nil {
-				return nil, nil, err
-			}
-		}
-		if err := addKids(tr.TrakKids, noErr(trak.AddChild)); err != nil {
-			return nil, nil, err
-		}
-		if err := addKids(tr.StblKids, noErr(trak.Mdia.Minf.Stbl.AddChild)); err != nil {
-			return nil, nil, err
-		}
-	}
-	if err := addKids(r.MvexKids, noErr(init.Moov.Mvex.AddChild)); err != nil {
-		return nil, nil, err
-	}
-	if err := addKids(r.MoovKids, noErr(init.Moov.AddChild)); err != nil {
-		return nil, nil, err
-	}
-	if err := addKids(r.TopKids, noErr(init.AddChild)); err != nil {
-		return nil, nil, err
-	}
-	if r.Tweak {
-		if err := init.TweakSingleTrakLive(); err != nil {
-			return nil, nil, reject("TweakSingleTrakLive: %v", err)
-		}
-	}
-	var ipd *mp4.InitProtectData
-	if p := r.Protect; p != nil {
-		kid, err := mp4.NewUUIDFromString(fixedKID)
-		if err != nil {
-			return nil, nil, reject("NewUUIDFromString: %v", err)
-		}
-		var psshs []*mp4.PsshBox
-		for i := range p.Pssh {
-			b, err := buildBox(&p.Pssh[i])
-			if err != nil {
-				return nil, nil, err
-			}
-			ps, ok := b.(*mp4.PsshBox)
-			if !ok {
-				return nil, nil, reject("protect.pssh is a %T", b)
-			}
-			psshs = append(psshs, ps)
-		}
-		ipd, err = mp4.InitProtect(init, fixedKey, fixedIV[:p.IVLen], p.Scheme, kid, psshs)
-		if err != nil {
-			return nil, nil, reject("InitProtect: %v", err)
-		}
-	}
-	return init, ipd, nil
-}
-
-func buildFrag(r *fragR, ipd *mp4.InitProtectData) (*mp4.Fragment, error) {
-	if len(r.Tracks) == 0 {
-		return nil, reject("fragment without tracks")
-	}
-	var frag *mp4.Fragment
-	var err error
-	switch r.Ctor {
-	case "single":
-		frag, err = mp4.CreateFragment(r.Seq, r.Tracks[0])
-	case "multi":
-		frag, err = mp4.CreateMultiTrackFragment(r.Seq, r.Tracks)
-	case "manual":
-		frag = mp4.NewFragment()
-		if err := addKids(r.Pre, noErr(frag.AddChild)); err != nil {
-			return nil, err
-		}
-		moof := &mp4.MoofBox{}
-		_ = moof.AddChild(mp4.CreateMfhd(r.Seq))
-		for _, id := range r.Tracks {
-			traf := &mp4.TrafBox{}
-			_ = moof.AddChild(traf)
-			_ = traf.AddChild(mp4.CreateTfhd(id))
-			_ = traf.AddChild(mp4.CreateTfdt(0))
-		}
-		frag.AddChild(moof)
-		frag.AddChild(&mp4.MdatBox{})
-	default:
-		return nil, reject("unknown fragment constructor %q", r.Ctor)
-	}
-	if err != nil {
-		return nil, reject("%s: %v", r.Ctor, err)
-	}
-	single := r.Ctor == "single"
-	var all []byte
-	switch r.Mode {
-	case "full":
-		if !single {
-			return nil, reject("mode full needs CreateFragment")
-		}
-		for _, s := range r.Samples {
-			frag.AddFullSample(mp4.FullSample{Sample: mp4.NewSample(s.Flags, s.Dur, uint32(s.Size), s.Cto), DecodeTime: s.Time, Data: sampleBytes(s)})
-		}
-	case "fullTrack":
-		for _, s := range r.Samples {
-			fs := mp4.FullSample{Sample: mp4.NewSample(s.Flags, s.Dur, uint32(s.Size), s.Cto), DecodeTime: s.Time, Data: sampleBytes(s)}
-			if err := frag.AddFullSampleToTrack(fs, r.Tracks[s.Track%len(r.Tracks)]); err != nil {
-				return nil, reject("AddFullSampleToTrack: %v", err)
-			}
-		}
-	case "meta":
-		if !single {
-			return nil, reject("mode meta needs CreateFragment")
-		}
-		for _, s := range r.Samples {
-			frag.AddSample(mp4.NewSample(s.Flags, s.Dur, uint32(s.Size), s.Cto), s.Time)
-			all = append(all, sampleBytes(s)...)
-		}
-		frag.Mdat.SetData(all) // ends the lazy mode of the mdat box: the data is written with the box
-	case "metaMany":
-		if !single {
-			return nil, reject("mode metaMany needs CreateFragment")
-		}
-		var ss []mp4.Sample
-		var t0 uint64
-		for i, s := range r.Samples {
-			if i == 0 {
-				t0 = s.Time
-			}
-			ss = append(ss, mp4.NewSample(s.Flags, s.Dur, uint32(s.Size), s.Cto))
-			all = append(all, sampleBytes(s)...)
-		}
-		frag.AddSamples(ss, t0)
-		frag.Mdat.SetData(all)
-	case "metaTrack":
-		for _, s := range r.Samples {
-			if err := frag.AddSampleToTrack(mp4.NewSample(s.Flags, s.Dur, uint32(s.Size), s.Cto), r.Tracks[s.Track%len(r.Tracks)], s.Time); err != nil {
-				return nil, reject("AddSampleToTrack: %v", err)
-			}
-			all = append(all, sampleBytes(s)...)
-		}
-		frag.Mdat.SetData(all)
-	case "interval", "intervalThenFull":
-		// "intervalThenFull": the last sample goes in through AddFullSample after the intervals (the mdat then holds
-		// data parts AND monolithic data; the library keeps going without an error, so the relation is judged)
-		if !single {
-			return nil, reject("mode interval needs CreateFragment")
-		}
-		nIv := len(r.Samples)
-		if r.Mode == "intervalThenFull" && nIv > 0 {
-			nIv--
-		}
-		for i := 0; i < nIv; {
-			j := i + 1 + int(r.Samples[i].Seed%3)
-			if j > nIv {
-				j = nIv
-			}
-			iv := mp4.SampleInterval{FirstDecodeTime: r.Samples[i].Time}
-			for _, s := range r.Samples[i:j] {
-				iv.Samples = append(iv.Samples, mp4.NewSample(s.Flags, s.Dur, uint32(s.Size), s.Cto))
-				iv.Data = append(iv.Data, sampleBytes(s)...)
-				iv.Size += uint32(s.Size)
-			}
-			if err := frag.AddSampleInterval(iv); err != nil {
-				return nil, reject("AddSampleInterval: %v", err)
-			}
-			i = j
-		}
-		if r.Mode == "intervalThenFull" && nIv < len(r.Samples) {
-			s := r.Samples[nIv]
-			frag.AddFullSample(mp4.FullSample{Sample: mp4.NewSample(s.Flags, s.Dur, uint32(s.Size), s.Cto), DecodeTime: s.Time, Data: sampleBytes(s)})
-		}
-	default:
-		return nil, reject("unknown mode %q", r.Mode)
-	}
-	if r.LargeMdat {
-		frag.Mdat.LargeSize = true
-	}
-	if r.Encrypt {
-		if ipd == nil {
-			return nil, reject("encrypt without protected init")
-		}
-		if err := mp4.EncryptFragment(frag, fixedKey, fixedIV, ipd); err != nil {
-			return nil, reject("EncryptFragment: %v", err)
-		}
-	}
-	// the tfhd fields are set after the encryption, which reads the samples back through the tfhd as it was created
-	for i, f := range r.Tfhd {
-		if i >= len(frag.Moof.Trafs) || len(f) < 6 {
-			continue
-		}
-		tfhd := frag.Moof.Trafs[i].Tfhd
-		tfhd.Flags |= uint32(f[0])
-		tfhd.BaseDataOffset, tfhd.SampleDescriptionIndex = uint64(f[1]), uint32(f[2])
-		tfhd.DefaultSampleDuration, tfhd.DefaultSampleSize, tfhd.DefaultSampleFlags = uint32(f[3]), uint32(f[4]), uint32(f[5])
-	}
-	for i, kids := range r.TrafKids {
-		if i >= len(frag.Moof.Trafs) {
-			break
-		}
-		if err := addKids(kids, frag.Moof.Trafs[i].AddChild); err != nil {
-			return nil, err
-		}
-	}
-	if err := addKids(r.MoofKids, frag.Moof.AddChild); err != nil {
-		return nil, err
-	}
-	for i := range r.Emsgs {
-		b, err := buildBox(&r.Emsgs[i])
-		if err != nil {
-			return nil, err
-		}
-		e, ok := b.(*mp4.EmsgBox)
-		if !ok {
-			return nil, reject("emsgs entry is a %T", b)
-		}
-		frag.AddEmsg(e)
-	}
-	if err := addKids(r.Post, noErr(frag.AddChild)); err != nil {
-		return nil, err
-	}
-	return frag, nil
-}
-
-func buildSeg(r *segR, ipd *mp4.InitProtectData) (*mp4.MediaSegment, error) {
-	var seg *mp4.MediaSegment
-	switch {
-	case r.Styp == nil:
-		seg = mp4.NewMediaSegmentWithoutStyp()
-	case r.Styp.T == "styp-default":
-		seg = mp4.NewMediaSegment()
-	default:
-		b, err := buildBox(r.Styp)
-		if err != nil {
-			return nil, err
-		}
-		styp, ok := b.(*mp4.StypBox)
-		if !ok {
-			return nil, reject("styp recipe gives a %T", b)
-		}
-		seg = mp4.NewMediaSegmentWithStyp(styp)
-	}
-	for i := range r.Sidxs {
-		b, err := buildBox(&r.Sidxs[i])
-		if err != nil {
-			return nil, err
-		}
-		sx, ok := b.(*mp4.SidxBox)
-		if !ok {
-			return nil, reject("sidx recipe gives a %T", b)
-		}
-		switch r.SidxVia {
-		case "fields":
-			if seg.Sidx == nil {
-				seg.Sidx = sx
-			}
-			seg.Sidxs = append(seg.Sidxs, sx)
-		case "sidx-only":
-			seg.Sidx = sx
-		default:
-			seg.AddSidx(sx)
-		}
-	}
-	for i := range r.Frags {
-		f, err := buildFrag(&r.Frags[i], ipd)
-		if err != nil {
-			return nil, err
-		}
-		seg.AddFragment(f)
-	}
-	return seg, nil
-}
-
-func segTop(seg *mp4.MediaSegment) []mp4.Box {
-	var out []mp4.Box
-	if seg.Styp != nil {
-		out = append(out, seg.Styp)
-	}
-	for _, sx := range seg.Sidxs {
-		out = append(out, sx)
-	}
-	for _, f := range seg.Fragments {
-		out = append(out, f.Children...)
-	}
-	return out
-}
-
-func infoer(f func(w io.Writer, specificBoxLevels, indent, indentStep string) error) func(io.Writer, string) error {
-	return func(w io.Writer, levels string) error { return f(w, levels, "", "  ") }
-}
-
-// build turns the recipe into the structure under test.
-func build(c *apiCase, st *stats) (*target, error) {
-	var init *mp4.InitSegment
-	var ipd *mp4.InitProtectData
-	var err error
-	if c.Init != nil {
-		if init, ipd, err = buildInit(c.Init); err != nil {
-			return nil, err
-		}
-	}
-	decrypt := func(frags ...*mp4.Fragment) error {
-		if !c.Decrypt || init == nil || ipd == nil || len(c.Segs) != 1 {
-			return nil
-		}
-		di, err := mp4.DecryptInit(init)
-		if err != nil {
-			return reject("DecryptInit: %v", err)
-		}
-		for i, f := range frags {
-			if i >= len(c.Segs[0].Frags) || !c.Segs[0].Frags[i].Encrypt {
-				continue
-			}
-			if err := mp4.DecryptFragment(f, di, fixedKey); err != nil {
-				return reject("DecryptFragment %d: %v", i, err)
-			}
-		}
-		return nil
-	}
-	switch c.Kind {
-	case "init":
-		if init == nil {
-			return nil, reject("init case without init recipe")
-		}
-		return &target{what: "InitSegment", size: init.Size, enc: init.Encode, encSW: init.EncodeSW, info: infoer(init.Info),
-			top: func() []mp4.Box { return init.Children }}, nil
-	case "fragment":
-		if len(c.Segs) != 1 || len(c.Segs[0].Frags) != 1 {
-			return nil, reject("fragment case needs one fragment recipe")
-		}
-		f, err := buildFrag(&c.Segs[0].Frags[0], ipd)
-		if err != nil {
-			return nil, err
-		}
-		if err := decrypt(f); err != nil {
-			return nil, err
-		}
-		return &target{what: "Fragment", size: f.Size, enc: f.Encode, encSW: f.EncodeSW, info: infoer(f.Info),
-			top: func() []mp4.Box { return f.Children }, setOpt: func() { f.EncOptimize = mp4.OptimizeTrun }}, nil
-	case "segment":
-		if len(c.Segs) != 1 {
-			return nil, reject("segment case needs one segment recipe")
-		}
-		seg, err := buildSeg(&c.Segs[0], ipd)
-		if err != nil {
-			return nil, err
-		}
-		if err := decrypt(seg.Fragments...); err != nil {
-			return nil, err
-		}
-		return &target{what: "MediaSegment", size: seg.Size, enc: seg.Encode, encSW: seg.EncodeSW, info: infoer(seg.Info),
-			top: func() []mp4.Box { return segTop(seg) }, setOpt: func() { seg.EncOptimize = mp4.OptimizeTrun }}, nil
-	case "file-frag":
-		return buildFragFile(c, st, init, ipd)
-	case "file-prog":
-		if c.Prog == nil {
-			return nil, reject("file-prog case without recipe")
-		}
-		f := mp4.NewFile()
-		pos := uint64(0)
-		if err := addKids(c.Prog.Boxes, func(b mp4.Box) error { f.AddChild(b, pos); pos += b.Size(); return nil }); err != nil {
-			return nil, err
-		}
-		if f.IsFragmented() {
-			return nil, reject("progressive recipe recognised as fragmented")
-		}
-		return &target{what: "File", size: f.Size, enc: f.Encode, encSW: f.EncodeSW, info: infoer(f.Info),
-			top: func() []mp4.Box { return f.Children }, setOpt: func() { f.EncOptimize = mp4.OptimizeTrun }}, nil
-	case "box":
-		if c.Box == nil {
-			return nil, reject("box case without recipe")
-		}
-		b, err := buildBox(c.Box)
-		if err != nil {
-			return nil, err
-		}
-		return &target{what: b.Type(), size: b.Size, enc: b.Encode, encSW: b.EncodeSW, info: infoer(b.Info),
-			top: func() []mp4.Box { return []mp4.Box{b} }}, nil
-	}
-	return nil, reject("unknown kind %q", c.Kind)
-}
-
-func buildFragFile(c *apiCase, st *stats, init *mp4.InitSegment, ipd *mp4.InitProtectData) (*target, error) {
-	if c.File == nil {
-		return nil, reject("file-frag case without file recipe")
-	}
-	fr := c.File
-	f := mp4.NewFile()
-	pos := uint64(0)
-	add := func(b mp4.Box) error { f.AddChild(b, pos); pos += b.Size(); return nil }
-	if init != nil {
-		for _, b := range init.Children {
-			_ = add(b)
-		}
-	}
-	if err := addKids(fr.Sidxs, add); err != nil {
-		return nil, err
-	}
-	var segs []*mp4.MediaSegment
-	for i := range c.Segs {
-		seg, err := buildSeg(&c.Segs[i], ipd)
-		if err != nil {
-			return nil, err
-		}
-		segs = append(segs, seg)
-		switch fr.Via {
-		case "addchild":
-			for _, b := range segTop(seg) {
-				_ = add(b)
-			}
-		case "addsegment":
-			f.AddMediaSegment(seg)
-		default:
-			return nil, reject("unknown file.via %q", fr.Via)
-		}
-	}
-	if fr.Mfra != nil {
-		if err := addKids([]boxR{*fr.Mfra}, add); err != nil {
-			return nil, err
-		}
-	}
-	if err := addKids(fr.Tail, add); err != nil {
-		return nil, err
-	}
-	if fr.UpdateSidx > 0 {
-		if err := f.UpdateSidx(true, fr.UpdateSidx == 2); err != nil {
-			st.class("file:UpdateSidx-error") // e.g. no init segment or no media segment: the file stays as it is
-		} else {
-			st.class("file:UpdateSidx")
-		}
-	}
-	if !f.IsFragmented() {
-		// nothing marks the file as fragmented (no moov, styp, moof, ...): it is written box by box
-		st.class("file:not-fragmented")
-		return &target{what: "File", size: f.Size, enc: f.Encode, encSW: f.EncodeSW, info: infoer(f.Info),
-			top: func() []mp4.Box { return f.Children }, setOpt: func() { f.EncOptimize = mp4.OptimizeTrun }}, nil
-	}
-	if fr.BoxTree {
-		f.FragEncMode = mp4.EncModeBoxTree
-		// in box-tree mode every moof is encoded on its own: the data offsets of the truns have to be there
-		for _, seg := range f.Segments {
-			for _, frag := range seg.Fragments {
-				if frag.Moof != nil && frag.Mdat != nil {
-					frag.SetTrunDataOffsets()
-				}
-			}
-		}
-	}
-	t := &target{what: "File", size: f.Size, enc: f.Encode, encSW: f.EncodeSW, info: infoer(f.Info),
-		setOpt: func() { f.EncOptimize = mp4.OptimizeTrun }}
-	if fr.BoxTree {
-		t.what = "File(box tree)"
-		t.top = func() []mp4.Box { return f.Children }
-		return t, nil
-	}
-	t.what = "File(segment mode)"
-	t.top = func() []mp4.Box {
-		var out []mp4.Box
-		if f.Init != nil {
-			out = append(out, f.Init.Children...)
-		}
-		for _, sx := range f.Sidxs {
-			out = append(out, sx)
-		}
-		for _, seg := range f.Segments {
-			out = append(out, segTop(seg)...)
-		}
-		if f.Mfra != nil {
-			out = append(out, f.Mfra)
-		}
-		return out
-	}
-	// do File.Children and the boxes written in segment mode coincide (as sets)?
-	written, child := map[mp4.Box]bool{}, map[mp4.Box]bool{}
-	for _, b := range t.top() {
-		written[b] = true
-	}
-	omitted, uncounted := false, false
-	for _, b := range f.Children {
-		child[b] = true
-		if !written[b] {
-			omitted = true
-		}
-	}
-	for b := range written {
-		if !child[b] {
-			uncounted = true
-		}
-	}
-	partsSize := func() uint64 {
-		n := uint64(0)
-		for _, b := range t.top() {
-			n += b.Size()
-		}
-		return n
-	}
-	if uncounted {
-		st.class("file:segments-not-in-children")
-		if c.avoid(st, "file-size-ignores-addmediasegment") {
-			t.size = partsSize
-		}
-	}
-	if omitted {
-		st.class("file:children-outside-segments")
-		if c.avoid(st, "file-size-counts-boxes-segment-mode-omits") {
-			t.size = partsSize
-		}
-	}
-	return t, nil
 }
 
 // ---------------------------------------------------------------------------------------------
@@ -908,34 +59,30 @@ var digits = regexp.MustCompile(`[0-9]+`)
 // the recipes hold a few KB of payload at most
 const maxPlausibleSize = 4 << 20
 
-func isOverflow(err error) bool {
-	return err != nil && (errors.Is(err, bits.ErrSliceWrite) || strings.Contains(err.Error(), bits.ErrSliceWrite.Error()))
-}
-
 func countBoxes(bs []*boxwalk.Box) int { return len(boxwalk.Flatten(bs)) }
 
-func checkAPI(c apiCase) *harness.Fail { return evalAPI(&c, &stats{}) }
+func checkAPI(c apigen.Case) *harness.Fail { return evalAPI(&c, &apigen.Stats{}) }
 
-func evalAPI(c *apiCase, st *stats) *harness.Fail {
+func evalAPI(c *apigen.Case, st *apigen.Stats) *harness.Fail {
 	if len(c.Hist) == 0 || len(c.Hist) > 8 {
 		return badCase("history of %d operations", len(c.Hist))
 	}
-	t, err := build(c, st)
+	t, err := apigen.Build(c, st)
 	if err != nil {
-		var rj rejected
+		var rj apigen.RejectedError
 		if errors.As(err, &rj) {
-			st.rejected = err.Error()
-			st.class("build-rejected")
-			st.class("build-rejected:" + digits.ReplaceAllString(st.rejected, "N"))
+			st.Rejected = err.Error()
+			st.Class("build-rejected")
+			st.Class("build-rejected:" + digits.ReplaceAllString(st.Rejected, "N"))
 			return nil
 		}
 		return badCase("%v", err)
 	}
-	optimise := c.Opt && t.setOpt != nil
+	optimise := c.Opt && t.SetOpt != nil
 	if optimise {
-		t.setOpt()
+		t.SetOpt()
 	}
-	w := t.what
+	w := t.What
 	var first []byte
 	firstVia := ""
 	nOK, nErr := 0, 0
@@ -944,19 +91,19 @@ func evalAPI(c *apiCase, st *stats) *harness.Fail {
 	for i, op := range c.Hist {
 		switch op {
 		case "size":
-			s1, s2 := t.size(), t.size()
+			s1, s2 := t.Size(), t.Size()
 			if s1 != s2 {
 				return harness.Failf("C02|"+w+"|Size() changes between two calls", "step %d: %d then %d", i, s1, s2)
 			}
 			continue
 		case "info", "info-all", "info-trun":
 			levels := map[string]string{"info": "", "info-all": "all:1", "info-trun": "trun:1,senc:1"}[op]
-			before := t.size()
+			before := t.Size()
 			var b bytes.Buffer
-			if err := t.info(&b, levels); err != nil {
-				st.class("info-error")
+			if err := t.Info(&b, levels); err != nil {
+				st.Class("info-error")
 			}
-			if after := t.size(); after != before {
+			if after := t.Size(); after != before {
 				return harness.Failf("C02|"+w+"|Size() changed by Info", "step %d (%q): %d then %d", i, levels, before, after)
 			}
 			continue
@@ -965,7 +112,7 @@ func evalAPI(c *apiCase, st *stats) *harness.Fail {
 			return badCase("unknown operation %q", op)
 		}
 		firstOpt := optimise && nOK == 0
-		before := t.size()
+		before := t.Size()
 		if before > maxPlausibleSize {
 			// nothing the generator builds comes near this; a buffer of that size must not be allocated
 			return harness.Failf("C02|"+w+"|Size() far beyond anything the structure can encode to", "step %d: Size() %d", i, before)
@@ -976,7 +123,7 @@ func evalAPI(c *apiCase, st *stats) *harness.Fail {
 		switch op {
 		case "enc":
 			var buf bytes.Buffer
-			err = t.enc(&buf)
+			err = t.Enc(&buf)
 			out = buf.Bytes()
 		case "sw", "swbig":
 			capacity = int(before)
@@ -984,15 +131,15 @@ func evalAPI(c *apiCase, st *stats) *harness.Fail {
 				capacity += 17
 			}
 			sw := boxprop.DirtySW(capacity) // not zeroed: an encoder that skips bytes shows up against the io.Writer path
-			err = t.encSW(sw)
+			err = t.EncSW(sw)
 			if err == nil {
 				err = sw.AccError()
 			}
 			out = append([]byte{}, sw.Bytes()...)
 		}
-		after := t.size()
+		after := t.Size()
 		if err != nil {
-			if isOverflow(err) {
+			if boxprop.IsOverflow(err) {
 				// the encoders allocate exactly Size() bytes (or were given them): an overflow means Size() is too small
 				if op == "enc" {
 					return harness.Failf("C02|"+w+"|Encode overflows a buffer of Size() bytes", "step %d: %v (Size() before %d, after %d)", i, err, before, after)
@@ -1047,19 +194,19 @@ func evalAPI(c *apiCase, st *stats) *harness.Fail {
 	}
 	if nOK == 0 {
 		if nErr > 0 {
-			st.class("encode-refused")
-			st.class("encode-refused:" + digits.ReplaceAllString(firstErr.Error(), "N"))
-			st.rejected = firstErr.Error()
+			st.Class("encode-refused")
+			st.Class("encode-refused:" + digits.ReplaceAllString(firstErr.Error(), "N"))
+			st.Rejected = firstErr.Error()
 		}
 		return nil
 	}
-	st.class("encoded")
+	st.Class("encoded")
 	tree, werr := boxwalk.WalkAll(first)
-	st.nBoxes = countBoxes(tree)
+	st.NBoxes = countBoxes(tree)
 	if werr != nil {
 		return harness.Failf("C02|"+w+"|size fields inconsistent (independent walker)", "%v", werr)
 	}
-	if diff := boxprop.SizeWalk(first, t.top()); diff != nil {
+	if diff := boxprop.SizeWalk(first, t.Top()); diff != nil {
 		return harness.Failf(diff.Key, "%s: %s", w, diff.Msg)
 	}
 	return nil
@@ -1068,232 +215,27 @@ func evalAPI(c *apiCase, st *stats) *harness.Fail {
 // ---------------------------------------------------------------------------------------------
 // the property
 
-func histShape(c *apiCase) (encodes int, infoBetween bool, classes []string) {
-	seenEnc, via := false, map[string]bool{}
-	pendingInfo := false
-	firstEnc := ""
-	for _, op := range c.Hist {
-		switch op {
-		case "enc", "sw", "swbig":
-			if seenEnc && pendingInfo {
-				infoBetween = true
-			}
-			if !seenEnc {
-				firstEnc = op
-			}
-			seenEnc, pendingInfo = true, false
-			encodes++
-			via[op] = true
-		case "info", "info-all", "info-trun":
-			if seenEnc {
-				pendingInfo = true
-			}
-		}
-	}
-	switch firstEnc {
-	case "enc":
-		classes = append(classes, "hist:writer-first")
-	case "sw", "swbig":
-		classes = append(classes, "hist:sw-first")
-	default:
-		classes = append(classes, "hist:no-encode")
-	}
-	if encodes >= 2 {
-		classes = append(classes, "hist:encode-twice")
-	}
-	if infoBetween {
-		classes = append(classes, "hist:info-between")
-	}
-	if via["enc"] && (via["sw"] || via["swbig"]) {
-		classes = append(classes, "hist:both-encoders")
-	}
-	if via["swbig"] {
-		classes = append(classes, "hist:sw-oversized-buffer")
-	}
-	for _, op := range c.Hist {
-		if op == "size" {
-			classes = append(classes, "hist:size-call")
-			break
-		}
-	}
-	classes = append(classes, fmt.Sprintf("hist:len-%d", len(c.Hist)))
-	return
-}
-
-func classify(c *apiCase) []string {
-	seen := map[string]bool{}
-	var cl []string
-	add := func(s string) {
-		if !seen[s] {
-			seen[s] = true
-			cl = append(cl, s)
-		}
-	}
-	kind := c.Kind
-	if c.Kind == "box" && c.Box != nil {
-		kind = "box:" + c.Box.T
-	}
-	if c.Kind == "fragment" && len(c.Segs) == 1 && len(c.Segs[0].Frags) == 1 && c.Segs[0].Frags[0].Ctor == "multi" {
-		kind = "multitrack-fragment"
-	}
-	add("kind:" + kind)
-	if c.Opt && c.Kind != "init" && c.Kind != "box" {
-		add("optimise:on")
-	} else {
-		add("optimise:off")
-	}
-	var boxes func(bs []boxR)
-	boxes = func(bs []boxR) {
-		for i := range bs {
-			add("uses:" + bs[i].T)
-			boxes(bs[i].K)
-		}
-	}
-	if in := c.Init; in != nil {
-		add(fmt.Sprintf("init:tracks-%d", len(in.Tracks)))
-		for i := range in.Tracks {
-			tr := &in.Tracks[i]
-			add("init:codec-" + tr.Codec)
-			add("init:media-" + tr.Media)
-			if len(tr.Lang) != 3 {
-				add("init:elng")
-			}
-			if tr.Entry != "" {
-				add(fmt.Sprintf("init:entry-%s-ps%v", tr.Entry, tr.IncludePS))
-			}
-			if tr.Edts != nil {
-				add("init:edts")
-			}
-			boxes(tr.EntryKids)
-			boxes(tr.TrakKids)
-			boxes(tr.StblKids)
-		}
-		if in.Tweak {
-			add("init:TweakSingleTrakLive")
-		}
-		if len(in.Manual) > 0 {
-			add("init:NewMP4Init+AddChild")
-			boxes(in.Manual)
-		}
-		if in.Protect != nil {
-			add("encrypted-init")
-			add("encrypted-init:" + in.Protect.Scheme)
-			boxes(in.Protect.Pssh)
-		}
-		boxes(in.MoovKids)
-		boxes(in.MvexKids)
-		boxes(in.TopKids)
-	}
-	for i := range c.Segs {
-		sg := &c.Segs[i]
-		if c.Kind != "fragment" {
-			switch {
-			case sg.Styp == nil:
-				add("seg:no-styp")
-			case sg.Styp.T == "styp-default":
-				add("seg:default-styp")
-			default:
-				add("seg:own-styp")
-			}
-			add(fmt.Sprintf("seg:sidx-%d", len(sg.Sidxs)))
-			if len(sg.Sidxs) > 0 && sg.SidxVia != "" {
-				add("seg:sidx-via-" + sg.SidxVia)
-			}
-			add(fmt.Sprintf("seg:fragments-%d", len(sg.Frags)))
-		}
-		for j := range sg.Frags {
-			fr := &sg.Frags[j]
-			add("frag:ctor-" + fr.Ctor)
-			add("frag:mode-" + fr.Mode)
-			add(fmt.Sprintf("frag:tracks-%d", len(fr.Tracks)))
-			switch n := len(fr.Samples); {
-			case n == 0:
-				add("frag:empty")
-			case n == 1:
-				add("frag:one-sample")
-			default:
-				add("frag:samples-2+")
-			}
-			for _, s := range fr.Samples {
-				if s.Cto < 0 {
-					add("frag:negative-cto")
-				}
-				if s.Size == 0 {
-					add("frag:zero-size-sample")
-				}
-				if s.Time >= 1<<32 {
-					add("frag:tfdt-64bit")
-				}
-			}
-			if fr.Encrypt {
-				add("frag:encrypted")
-			}
-			if fr.LargeMdat {
-				add("frag:mdat-largesize")
-			}
-			if len(fr.Emsgs) > 0 {
-				add("frag:AddEmsg")
-			}
-			if len(fr.Tfhd) > 0 {
-				add("frag:tfhd-fields")
-			}
-			boxes(fr.Pre)
-			boxes(fr.Emsgs)
-			boxes(fr.Post)
-			boxes(fr.MoofKids)
-			for _, k := range fr.TrafKids {
-				boxes(k)
-			}
-		}
-		boxes(sg.Sidxs)
-	}
-	if f := c.File; f != nil {
-		add("file:via-" + f.Via)
-		if f.BoxTree {
-			add("file:box-tree-mode")
-		} else {
-			add("file:segment-mode")
-		}
-		add(fmt.Sprintf("file:segments-%d", len(c.Segs)))
-		if f.Mfra != nil {
-			add("file:mfra")
-		}
-		boxes(f.Sidxs)
-		boxes(f.Tail)
-	}
-	if c.Decrypt {
-		add("decrypted-again")
-	}
-	if c.Prog != nil {
-		boxes(c.Prog.Boxes)
-	}
-	if c.Box != nil {
-		boxes(c.Box.K)
-	}
-	return cl
-}
-
 func TestAPI(t *testing.T) {
 	harness.RunRapid(t, "api", func(rt *rapid.T) {
-		c := genAPICase(rt)
+		c := apigen.Gen(rt)
 		raw, _ := json.Marshal(c)
-		var st stats
+		var st apigen.Stats
 		f := harness.Guarded(func() *harness.Fail { return evalAPI(&c, &st) })
-		encodes, infoBetween, hcl := histShape(&c)
-		cl := append(classify(&c), hcl...)
-		dyn := make([]string, 0, len(st.classes))
-		for k := range st.classes {
+		encodes, infoBetween, hcl := apigen.HistShape(&c)
+		cl := append(apigen.Classify(&c), hcl...)
+		dyn := make([]string, 0, len(st.Classes))
+		for k := range st.Classes {
 			dyn = append(dyn, k)
 		}
 		sort.Strings(dyn)
 		cl = append(cl, dyn...)
-		nt := st.classes["encoded"] && st.nBoxes >= 3 && (encodes >= 2 || infoBetween)
+		nt := st.Classes["encoded"] && st.NBoxes >= 3 && (encodes >= 2 || infoBetween)
 		harness.Rec.Case(nt, raw, cl...)
 		if nt && harness.Rec.WantSample() && len(raw) < 3000 {
 			harness.Rec.Sample(map[string]interface{}{"kind": "api", "case": c})
 		}
-		names := make([]string, 0, len(st.skipped))
-		for name := range st.skipped {
+		names := make([]string, 0, len(st.Skipped))
+		for name := range st.Skipped {
 			names = append(names, name)
 		}
 		sort.Strings(names)
